@@ -11,6 +11,7 @@ CONSTANTS NPre = 4
  ZFirst = 0
  ZAll = 0
  FirstSampleGuard = TRUE
+ PairWindow = 1000
 INVARIANTS C08_increasing C08_full_length C08_var_disjoint C08_index C08_independent
 VIEW View
 CHECK_DEADLOCK FALSE
